@@ -17,6 +17,10 @@ _internal: list[dict[str, Any]] = []
 
 
 def _info_dict(file: str, info: Any, stage: str) -> dict[str, Any]:
+    # origin_span may be a one-shot itertools.chain: materialise it ONCE and put an equivalent list back, otherwise
+    # reading it here would starve mypy's own `for scope_line in origin_span` loop (observed: ignores stopped applying)
+    if not isinstance(info.origin_span, (list, tuple, range)):
+        info.origin_span = list(info.origin_span)
     return {
         "stage": stage,
         "file": file,
